@@ -24,6 +24,7 @@ def site (f : Fmt) : Reason → String
   | .noObasis => "prepare_dump#1"
   | .generalizedMo => if f = .fchk then "prepare_dump#0" else "prepare_dump#2"
   | .pureFunctions => "prepare_dump#3"
+  | .fractionalNelec => "prepare_dump#3"
   | .alphaUnavailable => "prepare_dump:na"
   | .alphaAufbau => "prepare_dump#1"
   | .betaUnavailable => "prepare_dump:nb"
